@@ -29,6 +29,9 @@ CHECKS = {
  'C05': dict(cat='exploration', engine='E2', tech='bounded-exhaustive enumeration of construction routes, single content edits and length-1/2 call histories; differential on identifiers (no expected hashes)',
    text='A finite route alphabet (54 routes over metadata-only, point, model and fitted-model templates: literal types, containers, row labellings, column order, branch dtypes, metadata order, from_isotherm, JSON round trip, aliases, shorthands) must give one identifier / == / list membership, also in 4 child processes with other PYTHONHASHSEEDs; a content-edit alphabet (every metadata key, unit label, material, adsorbate, temperature, every data cell +1e-6, every branch mark, model parameters incl. small-magnitude ones, ranges, name) must change it while every cell +1e-10 must not; after every history of length 1 and 2 over 17 public reads and mutations (conversions, in-place edits) the identifier must equal that of an isotherm rebuilt from the resulting content.',
    note='identifier equality only (md5 strings); the route/edit alphabets are fixed lists.', ref='§4 C05'),
+ 'C06': dict(cat='exploration', engine='E2', tech='bounded-exhaustive product enumeration of isotherm variants through export/import/re-export, exact comparison',
+   text='The Cartesian product of class (metadata-only, point, model) x 12 unit configurations x 100 data shapes (1-7 points, 5 branch patterns incl. user-assigned marks, 6 extra-column sets incl. missing values) x a 19-value metadata alphabet (unicode, texts spelling numbers/booleans/None, ints, floats, bools, null, lists, nested dicts, material with properties) x target (string, file) x all 16 models (DR/DA also fitted) is exported to JSON, imported and re-exported; to_dict() incl. Python types, every data column and branch mark, model fields and predictions on a grid, identifier/== and byte-identity of the re-export are compared exactly. Quick thins the product over non-default unit configurations; thorough enumerates it completely.',
+   note='Metadata keys are non-reserved; bitwise equality of doubles demanded.', ref='§4 C06'),
 }
 
 def main():
